@@ -529,6 +529,11 @@ impl<S: Storage> Builder<S> {
             .register(id, span.clone(), output_row_counter.clone());
 
         let (tx, rx) = async_broadcast::broadcast(16);
+        // Deactivate the receiver *before* the producer task exists: an active receiver that is
+        // deactivated later would drop every chunk the producer has already queued (on a
+        // multi-thread runtime the task may run at once). With only an inactive receiver the
+        // producer's first `broadcast` waits until a subscriber activates.
+        let rx = rx.deactivate();
         // verif hook H4: every spawned operator task gets a tag `<spawn seq>.<node name>`
         // (spawn order = post-order of the plan tree), announced at `exec.spawn`.
         #[cfg(risinglight_verif)]
@@ -590,7 +595,7 @@ impl<S: Storage> Builder<S> {
             .expect("failed to spawn task");
 
         StreamSubscriber {
-            rx: rx.deactivate(),
+            rx,
             handle: Arc::new(AbortOnDropHandle(handle)),
         }
     }
